@@ -3,9 +3,12 @@
 package main
 
 import (
+	"bytes"
 	"flag"
 	"fmt"
 	"go/ast"
+	"go/printer"
+	"go/token"
 	"os"
 	"strings"
 
@@ -33,6 +36,13 @@ func mentions(n ast.Node, names ...string) bool {
 		return !found
 	})
 	return found
+}
+
+// exprText prints an expression as source text
+func exprText(e ast.Expr) string {
+	var b bytes.Buffer
+	printer.Fprint(&b, token.NewFileSet(), e)
+	return b.String()
 }
 
 func main() {
@@ -73,6 +83,39 @@ func main() {
 	}
 	if fd := get("function.go", "function.newThread"); fd != nil {
 		o.Def("functionNewThreadOut", "String", lib.LeanLongString(lib.NormFuncKeep(fd, keepOut)))
+	}
+	// 2b. the single-writer hypothesis of C18_lines: one and the same writer is stdout and stderr of a body, and the
+	//     builtins that run processes hand exactly those two writers on (no wrapper, no tee), so that os/exec and the
+	//     shell interpreter feed the line writer from ONE copying goroutine
+	if fd := get("function.go", "function.newThread"); fd != nil {
+		var args []string
+		ast.Inspect(fd.Body, func(n ast.Node) bool {
+			if c, ok := n.(*ast.CallExpr); ok {
+				if sel, ok := c.Fun.(*ast.SelectorExpr); ok && sel.Sel.Name == "SetStdio" && len(c.Args) == 3 {
+					args = append(args, lib.LeanString(exprText(c.Args[1])), lib.LeanString(exprText(c.Args[2])))
+				}
+			}
+			return true
+		})
+		o.Def("setStdioArgs", "List String", "["+strings.Join(args, ", ")+"]")
+	}
+	if fd := get("util/stdio.go", "Stdio"); fd != nil {
+		o.Def("utilStdioBody", "String", lib.LeanLongString(lib.NormFunc(fd)))
+	}
+	keepStd := func(s ast.Stmt) bool {
+		return mentions(s, "Stdout", "Stderr", "Stdio", "StdIO", "stdout", "stderr", "threadStdout")
+	}
+	if fd := get("lib/os/exec.go", "execf"); fd != nil {
+		o.Def("osExecStdio", "String", lib.LeanLongString(lib.NormFuncKeep(fd, keepStd)))
+	}
+	if fd := get("lib/os/exec.go", "output"); fd != nil {
+		o.Def("osOutputStdio", "String", lib.LeanLongString(lib.NormFuncKeep(fd, keepStd)))
+	}
+	if fd := get("lib/sh/exec.go", "exec"); fd != nil {
+		o.Def("shExecStdio", "String", lib.LeanLongString(lib.NormFuncKeep(fd, keepStd)))
+	}
+	if fd := get("lib/sh/exec.go", "output"); fd != nil {
+		o.Def("shOutputStdio", "String", lib.LeanLongString(lib.NormFuncKeep(fd, keepStd)))
 	}
 	// 3. the event-emitting skeleton of runTarget.Evaluate: event calls, the calls that decide the control flow, returns
 	keepEv := func(s ast.Stmt) bool {
